@@ -424,7 +424,9 @@ impl<'a> Minimiser<'a> {
             if best.param("min_cfg") != Some("0") {
                 best = self.min_cfg(best);
             }
-            best = self.min_files(best);
+            if best.param("min_files") != Some("0") {
+                best = self.min_files(best);
+            }
             best = self.min_tape(best);
             let after = (best.ops.len(), best.cfg.len(), total_gap(&best.ops));
             if after == before || Instant::now() > self.deadline || self.attempts >= self.max_attempts {
